@@ -19,6 +19,12 @@ Counter = collections.Counter
 OP_BUDGET = 40000
 EVENTS = ['a', 'b', 'c', 'd']
 METHODS = ['a', 'b', 'c', 'd', 'x', 'y']
+TRICKY_KW = {
+    4: {'method': 1, 'handler_ref': 2, 'handler': 3, 'args': (4,),
+        'kwargs': {'k': 5}, 'name': 6, 'listener': 7, 'callback': 8,
+        'method_ref': 9, 'event': 10, 'handlers': 11, 'cls': 12},
+    5: {'event_name': 'not the event'},
+}
 
 
 class Actors:
@@ -27,7 +33,7 @@ class Actors:
         self.desper, self.config = desper, config
 
         def make_method(mname, owner=-1):
-            def method(self, *args, **kwargs):
+            def method(self, /, *args, **kwargs):
                 it.last_owner = owner       # which class's function ran
                 it.cb(self, mname, args, kwargs)
                 return it.retval(self)      # return values mean nothing
@@ -160,6 +166,12 @@ class Interp:
         self.cur_plain = []         # tokens of arg-less dispatches in flight
         self.inflight_ok = set()    # tokens allowed to finish while disabled
         self.last_owner = None
+        self.closed = False
+        self.clearing = False
+        self.fin_count = 0
+        self.fin_set = set()
+        self.deferred_violation = None
+        self.raise_tokens = set()
         self.pending_add = Counter()  # queued on_add events not yet delivered
         self.held = set()           # slots a queued event may hold strongly
                                     # (exempt from death checks until the
@@ -317,6 +329,14 @@ class Interp:
             self.fail(('C04',) if kind == 'redelivered' else ('C03',), kind,
                       f'token {token} delivered {self.delivered[token][s]} '
                       f'times to h{s}')
+        if token in self.raise_tokens:
+            # the first callback that receives this event raises
+            self.raise_tokens.discard(token)
+            self.cbstack.append((s, token))
+            try:
+                self.op_raise(['raise', 'Boom'])
+            finally:
+                self.cbstack.pop()
         script = self.sc.get('scripts', {}).get(key)
         if script:
             self.cbstack.append((s, token))
@@ -336,14 +356,46 @@ class Interp:
             return args == (t,) and kwargs == {}
         if shape == 2:
             return args == () and kwargs == {'tok': t}
+        if shape in (4, 5):
+            return args == () and kwargs == dict(TRICKY_KW[shape], tok=t)
         return (len(args) == 2 and args[0] == t and args[1] is info['obj']
                 and kwargs == {'k': t})
 
     # ---- op dispatch
+    def fin_dispatch(self, s, ev):
+        """Program finalizer of listener s (weakref.finalize registered after
+        add_handler, so it runs before the dispatcher's own clean-up): an
+        event is dispatched at the very instant the listener dies."""
+        if self.closed or self.clearing:
+            return      # mid-clear: who is still registered is not defined
+        self.fin_count += 1
+        self.probes['dispatch_from_finalizer'] += 1
+        self.faults['dispatch_while_listener_dies'] += 1
+        try:
+            self.exec_op(['dispatch', ev, 5000 + self.fin_count, 1])
+        except Violation as v:          # finalizers cannot propagate
+            v.__traceback__ = None      # (and must not keep frames alive)
+            if self.deferred_violation is None:
+                self.deferred_violation = v
+        except BaseException as e:
+            if not getattr(e, '_injected', False):
+                raise
+
+    def arm_finalizer(self, s, o):
+        ev = self.cfg.get('finalizers', {}).get(str(s))
+        if ev is None or id(o) in self.fin_set:
+            return
+        self.fin_set.add(id(o))
+        f = weakref.finalize(o, self.fin_dispatch, s, ev)
+        f.atexit = False
+
     def exec_op(self, op):
         self.stats['ops'] += 1
         self.trace.add('op', self.depth, *op)
         r = getattr(self, 'op_' + op[0])(op)
+        if self.deferred_violation is not None and not self.depth:
+            v, self.deferred_violation = self.deferred_violation, None
+            raise v
         if r == 'skip':
             self.stats['skipped'] += 1
             self.trace.add('skip')
@@ -388,6 +440,7 @@ class Interp:
             self.probes['double_registration'] += 1
         e = self.guarded(lambda: self.d.add_handler(o), ('C03',),
                          f'add_handler(h{s})')
+        self.arm_finalizer(s, o)
         self.registered.add(s)
         self.touch(s)
         self.finish(e, 'add_handler')
@@ -428,6 +481,7 @@ class Interp:
         e = self.guarded(
             lambda: self.eids.__setitem__(s, self.d.create_entity(o)),
             ('C03',), f'create_entity(h{s})')
+        self.arm_finalizer(s, o)
         self.registered.add(s)
         self.touch(s)
         if 'on_add' in self.emap(s) and not self.enabled and e is None:
@@ -545,7 +599,12 @@ class Interp:
         self.pending_add.clear()
         self.held.clear()
         self.enabled = True             # EventDispatcher.clear re-enables
-        e = self.guarded(lambda: self.d.clear(), ('C10', 'C03'), 'clear()')
+        self.clearing = True
+        try:
+            e = self.guarded(lambda: self.d.clear(), ('C10', 'C03'),
+                             'clear()')
+        finally:
+            self.clearing = False
         for s in victims:
             self.probes['drop_via.clear'] += 1
             if s in self.cfg.get('cyclic', []):
@@ -558,16 +617,20 @@ class Interp:
     def op_gc(self, op):
         if self.cbstack:
             return 'skip'
-        gc.collect()
-        for s in sorted(self.limbo):
-            self.must_die[s] = self.wrefs[s]
+        # the model first: finalizers of the collected listeners run (and
+        # may dispatch) inside gc.collect(), when these are dead already
+        # (a finalizer's dispatch may make further listeners unreachable
+        # during the collection: those wait for the next one)
+        going = sorted(self.limbo)
+        going_unreg = sorted(self.limbo_unreg)
+        for s in going:
             self.registered.discard(s)
-            self.probes['cyclic_handler_collected'] += 1
         self.limbo.clear()
-        for s in sorted(self.limbo_unreg):
+        self.limbo_unreg.clear()
+        gc.collect()
+        for s in going + going_unreg:
             self.must_die[s] = self.wrefs[s]
             self.probes['cyclic_handler_collected'] += 1
-        self.limbo_unreg.clear()
 
     def op_revive(self, op):
         s = op[1]
@@ -598,6 +661,10 @@ class Interp:
         elif shape == 2:
             args, kwargs = (), {'tok': token}
             self.probes['kwargs_only_dispatch'] += 1
+        elif shape in (4, 5):
+            # keyword names a dispatcher might use for itself
+            args, kwargs = (), dict(TRICKY_KW[shape], tok=token)
+            self.probes['tricky_keyword_names'] += 1
         else:
             args, kwargs = (token, obj), {'k': token}
         s0 = self.eligible(ev)
@@ -641,6 +708,7 @@ class Interp:
             self.op_dispatch(['dispatch', ev, base + k, 1])
         self.probes['burst>=66'] += n >= 66
         self.probes['burst>4096'] += n > 4096
+        self.probes['burst>65536'] += n > 65536
 
     def check_dispatch(self, rec, aborted):
         token, ev = rec['token'], rec['ev']
@@ -843,6 +911,26 @@ class Interp:
                           f'h{s}, not registered during the release')
 
     # ---- faults
+    def op_try(self, op):
+        """A callback that guards part of its work with try/except: what an
+        injected exception interrupts is only the guarded part."""
+        if not self.cbstack:
+            return 'skip'
+        try:
+            for sub in op[1]:
+                self.exec_op(sub)
+        except BaseException as e:
+            if not getattr(e, '_injected', False):
+                raise
+            e.__traceback__ = None
+            self.probes['exception_swallowed_by_callback'] += 1
+            self.trace.add('swallowed', type(e).__name__)
+
+    def op_dispatch_r(self, op):
+        """dispatch of an event whose first receiver raises."""
+        self.raise_tokens.add(op[2])
+        return self.op_dispatch(['dispatch'] + list(op[1:]))
+
     def op_raise(self, op):
         kind = op[1]
         self.faults['raise_' + kind] += 1
@@ -918,6 +1006,7 @@ def execute(scenario, prop, tolerate=frozenset()):
     finally:
         sys.unraisablehook = old_hook
     it.stats['steps'] = kernel.StepBudget.total - s0
+    it.closed = True
     it.handlers.clear()
     return {'violation': violation, 'digest': it.trace.digest(),
             'nontrivial': it.nontrivial(), 'probes': dict(it.probes),
@@ -982,6 +1071,11 @@ def gen_config(prop, rng):
     if rng.random() < .25:
         cfg['returns'] = {str(s): rng.choice('TTF01sN') for s in range(n)
                           if rng.random() < .6}
+    if prop == 'C10' and rng.random() < .25:
+        # the program has its own finalizers: an event is dispatched at the
+        # instant a listener dies
+        cfg['finalizers'] = {str(s): rng.choice(EVENTS[:3])
+                             for s in range(n) if rng.random() < .5}
     if prop == 'C10':
         cfg['cyclic'] = [s for s in range(n) if rng.random() < .15]
         if dkind == 'world':
@@ -1000,7 +1094,8 @@ def gen_top_op(kind, rng, cfg, state):
     if kind == 'dispatch':
         state['token'] += 1
         ev = rng.choices(EVENTS, [4, 4, 2, 1])[0]
-        return ['dispatch', ev, state['token'], rng.choice([0, 1, 1, 2, 3])]
+        return ['dispatch', ev, state['token'],
+                rng.choice([0, 1, 1, 2, 3, 0, 1, 1, 2, 3, 4, 5])]
     return [kind]
 
 
@@ -1031,7 +1126,7 @@ def gen_script(prop, rng, cfg, state, act, acts):
 
 FAULT_KINDS = ['raise_Boom', 'raise_Quit', 'raise_SwitchWorld', 'disable',
                'disable_enable', 'redispatch', 'enable', 'add_handler',
-               'remove_handler', 'swap_handlers']
+               'remove_handler', 'swap_handlers', 'guarded_nested_release']
 
 
 def fault_script(kind, rng, state):
@@ -1053,6 +1148,16 @@ def fault_script(kind, rng, state):
         state['stoken'] += 1
         return [['disable'], ['dispatch', rng.choice(EVENTS[:3]),
                               state['stoken'], 1], ['enable']]
+    if kind == 'guarded_nested_release':
+        # disable, buffer a few events (the first receiver of the first one
+        # raises), enable - all inside the callback's own try/except
+        inner = [['disable']]
+        for k in range(rng.randint(2, 4)):
+            state['stoken'] += 1
+            inner.append(['dispatch_r' if k == 0 else 'dispatch',
+                          rng.choice(EVENTS[:3]), state['stoken'], 1])
+        inner.append(['enable'])
+        return [['try', inner]]
     state['stoken'] += 1
     return [['dispatch', rng.choice(EVENTS[:3]), state['stoken'],
              rng.choice([1, 3])]]
@@ -1108,10 +1213,12 @@ def generate(prop, run_seed, tier='quick', tolerate=frozenset()):
                           crng.choice([0, 1, 2, 3])])
         k = crng.randint(0, len(ops))
         ops[k:k] = block
-    if prop == 'C04' and crng.random() < .004:
+    r_long = crng.random()
+    if prop == 'C04' and r_long < .004:
         # a very long backlog (bounded buffers): one listener, no scripts
         ops = [['add_handler', 0], ['disable'],
-               ['burst', 'a', crng.randint(4097, 4400), 10000],
+               ['burst', 'a', crng.randint(4097, 4400) if r_long > .00015
+                else crng.randint(65537, 65600), 10000],
                ['enable'], ['enable']]
         cfg['hclasses'] = [{'base': None, 'mixin': False,
                             'deco': {'names': ['a'], 'maps': {}}}]
@@ -1269,16 +1376,19 @@ PROBES = {
             'reentrant_dispatch', 'remove_mid_dispatch',
             'kwargs_only_dispatch', 'multi_class_dispatch',
             'dispatch_nobody_listens', 'overridden_callback_called',
-            'callback_returned_value', 'redecorated_class'],
+            'callback_returned_value', 'redecorated_class',
+            'tricky_keyword_names'],
     'C04': ['fault_pos.first', 'fault_pos.middle', 'fault_pos.last',
             'release_aborted_by_raise', 'release_cut_by_nested_disable',
             'nested_enable_inside_release', 'raise_then_second_enable',
             'dispatch_during_release', 'unknown_name_queued',
             'release_multi', 'registration_changed_during_release',
-            'burst>=66', 'burst>4096'],
+            'burst>=66', 'burst>4096', 'burst>65536',
+            'exception_swallowed_by_callback'],
     'C10': ['victim_ahead', 'victim_behind', 'drop_via.registry',
             'drop_via.remove_component', 'drop_via.delete_now',
             'drop_via.deferred', 'drop_via.clear',
             'cyclic_handler_collected', 'death_verified',
-            'pending_event_keeps_alive', 'on_add_delivered'],
+            'pending_event_keeps_alive', 'on_add_delivered',
+            'dispatch_from_finalizer'],
 }
